@@ -1,17 +1,877 @@
-//! Engine `once` — placeholder (not written yet).
+//! Engine `once` (C12): schedule-driven executors on ONE real `breakpad_symbols::Symbolizer`
+//! against the Lean model `MdModel.Once`, plus the property's own oracle on the implementation.
+//!
+//! case line:  `once run x:<a|w|j> tasks:<k[w],k[w],..;..> sup:<k=delay:res,..> sched:<n,n,..|->`
+//!   tasks   one program per task: the module keys it looks up in order; a `w` suffix makes that
+//!           lookup go through `Symbolizer::walk_frame`, otherwise `Symbolizer::fill_symbol`
+//!   sup     the mock `SymbolSupplier`: for key k return `Pending` <delay> times, then ok|nf|pe
+//!   x:a     hand-rolled executor, polls exactly the task ids of `sched` (noop-like flag wakers, so
+//!           spurious polls are genuine); x:w waker-respecting executor (`sched` entries choose among
+//!           the woken tasks); x:j `futures_util::future::join_all` on a tokio runtime (smoke test)
+//!   output  per poll `<t>[<events>]<req>/<proc>w<woken bits>f<finished bits>` joined by `;`, then
+//!           ` final fin=.. req=.. proc=.. calls:.. seen:..` after a completion phase.
+
 use crate::common::*;
+use async_trait::async_trait;
+use breakpad_symbols::{
+    FileError, FileKind, FrameWalker, LocateSymbolsResult, Module, SimpleFrame, SimpleModule,
+    SymbolError, SymbolFile, SymbolSupplier, Symbolizer,
+};
+use std::collections::{BTreeMap, BTreeSet};
+use std::future::Future;
+use std::path::PathBuf;
+use std::pin::Pin;
+use std::str::FromStr;
+use std::sync::atomic::{AtomicBool, Ordering};
+use std::sync::{Arc, Mutex};
+use std::task::{Context, Poll, Wake, Waker};
 
 pub struct Once;
+
+#[derive(Clone, Copy, PartialEq, Eq, Debug)]
+enum Res {
+    Ok,
+    Nf,
+    Pe,
+}
+impl Res {
+    fn s(self) -> &'static str {
+        match self {
+            Res::Ok => "ok",
+            Res::Nf => "nf",
+            Res::Pe => "pe",
+        }
+    }
+}
+
+#[derive(Clone, Debug)]
+struct Case {
+    mode: char,
+    /// (key, via walk_frame)
+    progs: Vec<Vec<(u64, bool)>>,
+    sup: BTreeMap<u64, (u32, Res)>,
+    sched: Vec<u64>,
+}
+
+fn parse_case(case: &str) -> Option<Case> {
+    let f: Vec<&str> = case.split(' ').filter(|s| !s.is_empty()).collect();
+    if f.len() != 6 || f[0] != "once" || f[1] != "run" {
+        return None;
+    }
+    let mode = match f[2].strip_prefix("x:")? {
+        "a" => 'a',
+        "w" => 'w',
+        "j" => 'j',
+        _ => return None,
+    };
+    let mut progs = vec![];
+    for p in f[3].strip_prefix("tasks:")?.split(';') {
+        let mut prog = vec![];
+        if p != "-" {
+            for k in p.split(',') {
+                let (k, w) = match k.strip_suffix('w') {
+                    Some(k) => (k, true),
+                    None => (k, false),
+                };
+                prog.push((k.parse().ok()?, w));
+            }
+        }
+        progs.push(prog);
+    }
+    let mut sup = BTreeMap::new();
+    for e in f[4].strip_prefix("sup:")?.split(',') {
+        let (k, v) = e.split_once('=')?;
+        let (d, r) = v.split_once(':')?;
+        let r = match r {
+            "ok" => Res::Ok,
+            "nf" => Res::Nf,
+            "pe" => Res::Pe,
+            _ => return None,
+        };
+        sup.insert(k.parse().ok()?, (d.parse().ok()?, r));
+    }
+    let s = f[5].strip_prefix("sched:")?;
+    let sched = if s == "-" {
+        vec![]
+    } else {
+        s.split(',').map(|x| x.parse().ok()).collect::<Option<Vec<u64>>>()?
+    };
+    if progs.iter().flatten().any(|(k, _)| !sup.contains_key(k)) {
+        return None;
+    }
+    if mode == 'j' && !sched.is_empty() {
+        return None;
+    }
+    Some(Case { mode, progs, sup, sched })
+}
+
+fn render(c: &Case) -> String {
+    let tasks = c
+        .progs
+        .iter()
+        .map(|p| {
+            if p.is_empty() {
+                "-".to_string()
+            } else {
+                p.iter()
+                    .map(|(k, w)| format!("{k}{}", if *w { "w" } else { "" }))
+                    .collect::<Vec<_>>()
+                    .join(",")
+            }
+        })
+        .collect::<Vec<_>>()
+        .join(";");
+    let sup = c
+        .sup
+        .iter()
+        .map(|(k, (d, r))| format!("{k}={d}:{}", r.s()))
+        .collect::<Vec<_>>()
+        .join(",");
+    let sched = if c.sched.is_empty() {
+        "-".to_string()
+    } else {
+        c.sched.iter().map(|x| x.to_string()).collect::<Vec<_>>().join(",")
+    };
+    format!("once run x:{} tasks:{tasks} sup:{sup} sched:{sched}", c.mode)
+}
+
+// ------------------------------------------------------------------------------------ the mock
+
+#[derive(Clone, Debug, PartialEq)]
+enum Ev {
+    Call(u64),
+    Ret(u64),
+    /// task, key, outcome class, and (for ok) the supplier call instance whose symbols were used
+    Seen(usize, u64, Res, Option<String>),
+}
+
+#[derive(Default)]
+struct Shared {
+    events: Vec<Ev>,
+    calls: BTreeMap<u64, usize>,
+}
+
+struct Mock {
+    table: BTreeMap<u64, (u32, Res)>,
+    sh: Arc<Mutex<Shared>>,
+}
+
+/// returns `Pending` once (after waking itself, like `tokio::task::yield_now`)
+struct YieldOnce(bool);
+impl Future for YieldOnce {
+    type Output = ();
+    fn poll(mut self: Pin<&mut Self>, cx: &mut Context<'_>) -> Poll<()> {
+        if self.0 {
+            Poll::Ready(())
+        } else {
+            self.0 = true;
+            cx.waker().wake_by_ref();
+            Poll::Pending
+        }
+    }
+}
+
+fn key_of_code_file(code_file: &str) -> u64 {
+    // "/lib/m<k>.so"
+    code_file
+        .trim_start_matches("/lib/m")
+        .trim_end_matches(".so")
+        .parse()
+        .expect("mock: unknown module")
+}
+
+fn module_for(k: u64) -> SimpleModule {
+    // all four components of `module_key` are present and depend on k
+    let id = debugid::DebugId::from_str(&format!("abcd1234-abcd-1234-abcd-abcd{:08x}-a", k)).unwrap();
+    SimpleModule::from_basic_info(
+        Some(format!("m{k}.dbg")),
+        Some(id),
+        Some(format!("/lib/m{k}.so")),
+        Some(debugid::CodeId::new(format!("C0DE{k:04X}"))),
+    )
+}
+
+#[async_trait]
+impl SymbolSupplier for Mock {
+    async fn locate_symbols(
+        &self,
+        module: &(dyn Module + Sync),
+    ) -> Result<LocateSymbolsResult, SymbolError> {
+        let k = key_of_code_file(&module.code_file());
+        let (delay, res) = self.table[&k];
+        let inst = {
+            let mut sh = self.sh.lock().unwrap();
+            sh.events.push(Ev::Call(k));
+            let c = sh.calls.entry(k).or_insert(0);
+            *c += 1;
+            *c
+        };
+        for _ in 0..delay {
+            YieldOnce(false).await;
+        }
+        self.sh.lock().unwrap().events.push(Ev::Ret(k));
+        match res {
+            Res::Ok => {
+                let text = format!(
+                    "MODULE Linux x86 000000000000000000000000000000000 m{k}\nFUNC 1000 100 0 fn_k{k}_call{inst}\nSTACK CFI INIT 1000 100 .cfa: {} .ra: 8192\n",
+                    4096 + inst
+                );
+                Ok(LocateSymbolsResult {
+                    symbols: SymbolFile::from_bytes(text.as_bytes())?,
+                    extra_debug_info: None,
+                })
+            }
+            Res::Nf => Err(SymbolError::NotFound),
+            Res::Pe => {
+                // a genuine parse error of the real parser
+                match SymbolFile::from_bytes(b"MODULE Linux x86 0 m\nthis is not a record\n") {
+                    Err(e) => Err(e),
+                    Ok(_) => panic!("mock: garbage parsed"),
+                }
+            }
+        }
+    }
+
+    async fn locate_file(
+        &self,
+        _module: &(dyn Module + Sync),
+        _file_kind: FileKind,
+    ) -> Result<PathBuf, FileError> {
+        Err(FileError::NotFound)
+    }
+}
+
+#[derive(Default)]
+struct Walker {
+    cfa: Option<u64>,
+    ra: Option<u64>,
+}
+impl FrameWalker for Walker {
+    fn get_instruction(&self) -> u64 {
+        0x1010
+    }
+    fn has_grand_callee(&self) -> bool {
+        false
+    }
+    fn get_grand_callee_parameter_size(&self) -> u32 {
+        0
+    }
+    fn get_register_at_address(&self, _address: u64) -> Option<u64> {
+        None
+    }
+    fn get_callee_register(&self, _name: &str) -> Option<u64> {
+        None
+    }
+    fn set_caller_register(&mut self, _name: &str, _val: u64) -> Option<()> {
+        Some(())
+    }
+    fn clear_caller_register(&mut self, _name: &str) {}
+    fn set_cfa(&mut self, val: u64) -> Option<()> {
+        self.cfa = Some(val);
+        Some(())
+    }
+    fn set_ra(&mut self, val: u64) -> Option<()> {
+        self.ra = Some(val);
+        Some(())
+    }
+}
+
+/// what one task does: its lookups one after another on the shared symbolizer
+async fn task_body(sym: &Symbolizer, t: usize, prog: &[(u64, bool)], sh: &Arc<Mutex<Shared>>) {
+    for &(k, via_walk) in prog {
+        let m = module_for(k); // a fresh, equal-by-value module every time
+        let inst: Option<String> = if via_walk {
+            let mut w = Walker::default();
+            match sym.walk_frame(&m, &mut w).await {
+                Some(()) => Some(format!("call{}", w.cfa.unwrap_or(0).wrapping_sub(4096))),
+                None => None,
+            }
+        } else {
+            let mut f = SimpleFrame::with_instruction(0x1010);
+            match sym.fill_symbol(&m, &mut f).await {
+                Ok(()) => Some(
+                    f.function
+                        .unwrap_or_default()
+                        .trim_start_matches(&format!("fn_k{k}_"))
+                        .to_string(),
+                ),
+                Err(_) => None,
+            }
+        };
+        let res = match &inst {
+            Some(_) => Res::Ok,
+            None => {
+                // the remembered failure, as far as the public API shows it
+                let st = sym.stats();
+                match st.get(&format!("m{k}.so")) {
+                    Some(s) if s.loaded_symbols && s.corrupt_symbols => Res::Pe,
+                    _ => Res::Nf,
+                }
+            }
+        };
+        sh.lock().unwrap().events.push(Ev::Seen(t, k, res, inst));
+    }
+}
+
+struct Flag(AtomicBool);
+impl Wake for Flag {
+    fn wake(self: Arc<Self>) {
+        self.0.store(true, Ordering::SeqCst);
+    }
+    fn wake_by_ref(self: &Arc<Self>) {
+        self.0.store(true, Ordering::SeqCst);
+    }
+}
+
+struct RunOut {
+    trace: Vec<String>,
+    summary: String,
+    events: Vec<Ev>,
+    calls: BTreeMap<u64, usize>,
+    /// (requested, processed, supplier calls started, supplier calls returned) after every poll
+    counters: Vec<(u64, u64, u64, u64)>,
+    finished: Vec<bool>,
+    stalled: bool,
+    blocked_polls: usize,
+    polls: usize,
+}
+
+fn ev_str(e: &Ev) -> String {
+    match e {
+        Ev::Call(k) => format!("c{k}"),
+        Ev::Ret(k) => format!("r{k}"),
+        Ev::Seen(t, k, r, _) => format!("s{t}.{k}={}", r.s()),
+    }
+}
+
+fn summary(c: &Case, sym: &Symbolizer, sh: &Shared, finished: &[bool]) -> String {
+    let ps = sym.pending_stats();
+    let calls = sh
+        .calls
+        .iter()
+        .filter(|(_, n)| **n > 0)
+        .map(|(k, n)| format!("{k}x{n}"))
+        .collect::<Vec<_>>()
+        .join(",");
+    let seen = (0..c.progs.len())
+        .map(|t| {
+            format!(
+                "{t}:{}",
+                sh.events
+                    .iter()
+                    .filter_map(|e| match e {
+                        Ev::Seen(t2, k, r, _) if *t2 == t => Some(format!("{k}={}", r.s())),
+                        _ => None,
+                    })
+                    .collect::<Vec<_>>()
+                    .join(",")
+            )
+        })
+        .collect::<Vec<_>>()
+        .join(";");
+    format!(
+        "final fin={} req={} proc={} calls:{calls} seen:{seen}",
+        if finished.iter().all(|f| *f) { 1 } else { 0 },
+        ps.symbols_requested,
+        ps.symbols_processed
+    )
+}
+
+/// modes `a` and `w`
+fn run_scheduled(c: &Case) -> RunOut {
+    let n = c.progs.len();
+    let sh = Arc::new(Mutex::new(Shared::default()));
+    let sym = Symbolizer::new(Mock { table: c.sup.clone(), sh: sh.clone() });
+    let flags: Vec<Arc<Flag>> = (0..n).map(|_| Arc::new(Flag(AtomicBool::new(true)))).collect();
+    let wakers: Vec<Waker> = flags.iter().map(|f| Waker::from(f.clone())).collect();
+    let mut futs: Vec<Option<Pin<Box<dyn Future<Output = ()> + '_>>>> = Vec::new();
+    for t in 0..n {
+        futs.push(Some(Box::pin(task_body(&sym, t, &c.progs[t], &sh))));
+    }
+    let mut out = RunOut {
+        trace: vec![],
+        summary: String::new(),
+        events: vec![],
+        calls: BTreeMap::new(),
+        counters: vec![],
+        finished: vec![false; n],
+        stalled: false,
+        blocked_polls: 0,
+        polls: 0,
+    };
+    let mut seen_events = 0usize;
+    // one poll of task t; returns the trace entry
+    let mut poll_one = |t: usize,
+                        futs: &mut Vec<Option<Pin<Box<dyn Future<Output = ()> + '_>>>>,
+                        out: &mut RunOut|
+     -> String {
+        if t < n {
+            if let Some(f) = futs[t].as_mut() {
+                flags[t].0.store(false, Ordering::SeqCst);
+                let mut cx = Context::from_waker(&wakers[t]);
+                out.polls += 1;
+                if f.as_mut().poll(&mut cx).is_ready() {
+                    futs[t] = None;
+                    out.finished[t] = true;
+                }
+            }
+        }
+        let shg = sh.lock().unwrap();
+        let evs = &shg.events[seen_events..];
+        if t < n && evs.is_empty() && !out.finished[t] && !flags[t].0.load(Ordering::SeqCst) {
+            out.blocked_polls += 1;
+        }
+        let ps = sym.pending_stats();
+        let started = shg.events.iter().filter(|e| matches!(e, Ev::Call(_))).count() as u64;
+        let returned = shg.events.iter().filter(|e| matches!(e, Ev::Ret(_))).count() as u64;
+        out.counters.push((ps.symbols_requested, ps.symbols_processed, started, returned));
+        let s = format!(
+            "{t}[{}]{}/{}w{}f{}",
+            evs.iter().map(ev_str).collect::<Vec<_>>().join(","),
+            ps.symbols_requested,
+            ps.symbols_processed,
+            flags.iter().map(|f| if f.0.load(Ordering::SeqCst) { '1' } else { '0' }).collect::<String>(),
+            out.finished.iter().map(|f| if *f { '1' } else { '0' }).collect::<String>(),
+        );
+        seen_events = shg.events.len();
+        s
+    };
+    let runnable = |out: &RunOut| -> Vec<usize> {
+        (0..n)
+            .filter(|&t| flags[t].0.load(Ordering::SeqCst) && !out.finished[t])
+            .collect()
+    };
+    for &x in &c.sched {
+        if c.mode == 'a' {
+            let e = poll_one(x as usize, &mut futs, &mut out);
+            out.trace.push(e);
+        } else {
+            if out.finished.iter().all(|f| *f) {
+                break;
+            }
+            let r = runnable(&out);
+            if r.is_empty() {
+                out.trace.push("stall".into());
+                out.stalled = true;
+                break;
+            }
+            let t = r[(x as usize) % r.len()];
+            let e = poll_one(t, &mut futs, &mut out);
+            out.trace.push(e);
+        }
+    }
+    // completion phase (not part of the compared trace): every fair continuation must finish
+    let mut budget = 20_000usize;
+    while !out.finished.iter().all(|f| *f) && budget > 0 && !out.stalled {
+        let todo: Vec<usize> = if c.mode == 'a' {
+            (0..n).filter(|&t| !out.finished[t]).collect()
+        } else {
+            let r = runnable(&out);
+            if r.is_empty() {
+                out.stalled = true;
+                break;
+            }
+            r
+        };
+        for t in todo {
+            if !out.finished[t] {
+                let _ = poll_one(t, &mut futs, &mut out);
+                budget = budget.saturating_sub(1);
+            }
+        }
+    }
+    drop(poll_one);
+    let shg = sh.lock().unwrap();
+    out.summary = summary(c, &sym, &shg, &out.finished);
+    out.events = shg.events.clone();
+    out.calls = shg.calls.clone();
+    drop(shg);
+    drop(futs);
+    out
+}
+
+/// mode `j`: `join_all` on a tokio runtime; a timeout turns a hang into a report
+fn run_join_all(c: &Case) -> RunOut {
+    let n = c.progs.len();
+    let sh = Arc::new(Mutex::new(Shared::default()));
+    let sym = Symbolizer::new(Mock { table: c.sup.clone(), sh: sh.clone() });
+    let rt = tokio::runtime::Builder::new_current_thread().enable_time().build().unwrap();
+    let done = rt.block_on(async {
+        let futs = (0..n).map(|t| task_body(&sym, t, &c.progs[t], &sh));
+        tokio::time::timeout(std::time::Duration::from_secs(10), futures_util::future::join_all(futs))
+            .await
+            .is_ok()
+    });
+    let shg = sh.lock().unwrap();
+    let finished = vec![done; n];
+    let ps = sym.pending_stats();
+    let started = shg.events.iter().filter(|e| matches!(e, Ev::Call(_))).count() as u64;
+    let returned = shg.events.iter().filter(|e| matches!(e, Ev::Ret(_))).count() as u64;
+    RunOut {
+        trace: vec![],
+        summary: summary(c, &sym, &shg, &finished),
+        events: shg.events.clone(),
+        calls: shg.calls.clone(),
+        counters: vec![(ps.symbols_requested, ps.symbols_processed, started, returned)],
+        finished,
+        stalled: !done,
+        blocked_polls: 0,
+        polls: 0,
+    }
+}
+
+/// the property's oracle, on the implementation's behaviour alone
+fn oracle(c: &Case, r: &RunOut) -> Vec<(String, String)> {
+    let mut o = vec![];
+    let distinct: BTreeSet<u64> = c.progs.iter().flatten().map(|(k, _)| *k).collect();
+    // (1) the supplier is asked at most once per distinct module
+    for (k, n) in &r.calls {
+        if *n > 1 {
+            o.push(("supplier-called-twice".into(), format!("locate_symbols called {n} times for module key {k}")));
+        }
+    }
+    // (2) every requester of a module observes the same outcome (incl. a remembered failure),
+    //     and it is the outcome the supplier gave
+    let mut per_key: BTreeMap<u64, Vec<(usize, Res, Option<String>)>> = BTreeMap::new();
+    for e in &r.events {
+        if let Ev::Seen(t, k, res, inst) = e {
+            per_key.entry(*k).or_default().push((*t, *res, inst.clone()));
+        }
+    }
+    for (k, v) in &per_key {
+        if let Some(first) = v.first() {
+            if let Some(other) = v.iter().find(|x| x.1 != first.1 || x.2 != first.2) {
+                o.push((
+                    "outcomes-disagree".into(),
+                    format!("module key {k}: task {} saw {}{:?} but task {} saw {}{:?}", first.0, first.1.s(), first.2, other.0, other.1.s(), other.2),
+                ));
+            }
+        }
+        let want = c.sup[k].1;
+        if let Some(bad) = v.iter().find(|x| x.1 != want) {
+            o.push((
+                "wrong-outcome".into(),
+                format!("module key {k}: supplier answered {} but task {} observed {}", want.s(), bad.0, bad.1.s()),
+            ));
+        }
+    }
+    // (3) counters: processed <= requested <= #distinct modules at every poll; both equal the
+    //     number of distinct modules at the end
+    for (i, (rq, pr, _, _)) in r.counters.iter().enumerate() {
+        if !(pr <= rq && *rq <= distinct.len() as u64) {
+            o.push(("counters-out-of-order".into(), format!("after poll #{i}: requested={rq} processed={pr} distinct modules={}", distinct.len())));
+            break;
+        }
+    }
+    //     and they mean what their documentation says: requested = supplier lookups started,
+    //     processed = supplier lookups finished ("the number of symbols we have finished processing")
+    for (i, (rq, pr, st, rt)) in r.counters.iter().enumerate() {
+        if rq != st || pr != rt {
+            o.push(("counters-vs-supplier".into(), format!("after poll #{i}: requested={rq} processed={pr} but the supplier has started {st} and finished {rt} lookups")));
+            break;
+        }
+    }
+    // (4) no request is lost or deadlocks
+    if r.stalled || !r.finished.iter().all(|f| *f) {
+        let class = if c.mode == 'a' { "deadlock" } else { "lost-wakeup-or-hang" };
+        o.push((class.into(), format!("tasks finished: {:?} (stalled={})", r.finished, r.stalled)));
+    } else {
+        if let Some((rq, pr, _, _)) = r.counters.last() {
+            if *rq != distinct.len() as u64 || *pr != distinct.len() as u64 {
+                o.push(("final-counters".into(), format!("all tasks finished: requested={rq} processed={pr} distinct modules={}", distinct.len())));
+            }
+        }
+        for (t, prog) in c.progs.iter().enumerate() {
+            let got: Vec<u64> = r
+                .events
+                .iter()
+                .filter_map(|e| match e {
+                    Ev::Seen(t2, k, _, _) if *t2 == t => Some(*k),
+                    _ => None,
+                })
+                .collect();
+            let want: Vec<u64> = prog.iter().map(|(k, _)| *k).collect();
+            if got != want {
+                o.push(("request-lost".into(), format!("task {t} asked for {want:?} but got answers for {got:?}")));
+            }
+        }
+    }
+    o
+}
+
+fn fmt_cfg(progs: &[Vec<(u64, bool)>], sup: &BTreeMap<u64, (u32, Res)>, mode: char, sched: Vec<u64>) -> String {
+    render(&Case { mode, progs: progs.to_vec(), sup: sup.clone(), sched })
+}
+
+/// schedule length for the exhaustive part: enough polls for a completion plus slack
+fn sched_len(progs: &[Vec<(u64, bool)>], sup: &BTreeMap<u64, (u32, Res)>, slack: usize, cap: usize) -> usize {
+    let lookups: usize = progs.iter().map(|p| p.len()).sum();
+    let keys: BTreeSet<u64> = progs.iter().flatten().map(|(k, _)| *k).collect();
+    let delays: usize = keys.iter().map(|k| sup[k].0 as usize).sum();
+    (lookups + delays + slack).min(cap)
+}
+
+fn all_seqs(n: u64, len: usize, f: &mut dyn FnMut(&[u64])) {
+    let mut cur = vec![0u64; len];
+    loop {
+        f(&cur);
+        let mut i = len;
+        loop {
+            if i == 0 {
+                return;
+            }
+            i -= 1;
+            cur[i] += 1;
+            if cur[i] < n {
+                break;
+            }
+            cur[i] = 0;
+        }
+    }
+}
 
 impl Engine for Once {
     fn name(&self) -> &'static str {
         "once"
     }
     fn rule(&self) -> String {
-        "not implemented".into()
+        "case = (executor, one program of module keys per task, supplier table key -> (suspensions, outcome), poll schedule). Exhaustive part: ALL poll sequences (leaves of the prefix-closed tree; the trace is compared after every poll, so every prefix is covered) of length 2*lookups+suspensions (2 tasks, capped at 11 quick / 12 thorough) resp. lookups+suspensions+3|4 (3 tasks, capped at 8 / 9) for 2 tasks x <=2 lookups x <=2 keys x <=2 suspensions and 3 tasks x 1 lookup x 2 keys x <=1 suspension, arbitrary-poll executor; random part: 2..4 tasks x 1..3 lookups x 1..3 keys x 0..3 suspensions x outcomes ok/nf/pe under the arbitrary-poll executor (random schedules with spurious polls), the waker-respecting executor (random choices among woken tasks) and join_all on a tokio runtime. non-trivial = at least two tasks ask for a common key and at least one poll found the lock taken (blocked poll) or the run used >= 2 tasks with a suspending supplier; distinct = distinct case line".into()
     }
-    fn generate(&self, _tier: Tier, _rng: &mut Rng, _emit: &mut dyn FnMut(String)) {}
-    fn exec(&self, _case: &str) -> ImplResult {
-        ImplResult::default()
+    fn exhaustive_part(&self) -> Option<String> {
+        Some("all poll sequences (task ids incl. spurious polls) up to the length bound for every configuration of 2 tasks x <=2 lookups x <=2 keys x <=2 suspensions (up to task/key symmetry) and 3 tasks x 1 lookup x 2 keys x <=1 suspension, compared with the model after every poll".into())
+    }
+
+    fn generate(&self, tier: Tier, rng: &mut Rng, emit: &mut dyn FnMut(String)) {
+        let quick = tier == Tier::Quick;
+        // ---- exhaustive: 2 tasks x <=2 lookups x <=2 keys x <=2 suspensions
+        let progs2: Vec<Vec<u64>> = vec![vec![0], vec![1], vec![0, 0], vec![0, 1], vec![1, 0], vec![1, 1]];
+        let outcomes: [(Res, Res); 3] = [(Res::Ok, Res::Nf), (Res::Pe, Res::Ok), (Res::Nf, Res::Pe)];
+        let mut oc = 0usize;
+        for (ia, pa) in progs2.iter().enumerate() {
+            for pb in progs2.iter().skip(ia) {
+                // key symmetry: the first key mentioned is 0
+                if pa[0] != 0 {
+                    continue;
+                }
+                for d0 in 0..=2u32 {
+                    for d1 in 0..=2u32 {
+                        let uses1 = pa.iter().chain(pb.iter()).any(|k| *k == 1);
+                        if !uses1 && d1 != 0 {
+                            continue;
+                        }
+                        let (r0, r1) = outcomes[oc % 3];
+                        oc += 1;
+                        let mut sup = BTreeMap::new();
+                        sup.insert(0u64, (d0, r0));
+                        if uses1 {
+                            sup.insert(1u64, (d1, r1));
+                        }
+                        // alternate the API used, deterministically
+                        let progs: Vec<Vec<(u64, bool)>> = [pa, pb]
+                            .iter()
+                            .enumerate()
+                            .map(|(t, p)| p.iter().enumerate().map(|(i, k)| (*k, (t + i + oc) % 3 == 0)).collect())
+                            .collect();
+                        let lookups: usize = progs.iter().map(|p| p.len()).sum();
+                        let len = sched_len(&progs, &sup, lookups, if quick { 11 } else { 12 });
+                        all_seqs(2, len, &mut |s| emit(fmt_cfg(&progs, &sup, 'a', s.to_vec())));
+                    }
+                }
+            }
+        }
+        // ---- exhaustive: 3 tasks x 1 lookup x 2 keys x <=1 suspension
+        for prog in [[0u64, 0, 0], [0, 0, 1], [0, 1, 0], [1, 0, 0]] {
+            for d0 in 0..=1u32 {
+                for d1 in 0..=1u32 {
+                    for (r0, r1) in outcomes {
+                        let mut sup = BTreeMap::new();
+                        sup.insert(0u64, (d0, r0));
+                        sup.insert(1u64, (d1, r1));
+                        let progs: Vec<Vec<(u64, bool)>> = prog.iter().map(|k| vec![(*k, false)]).collect();
+                        let len = sched_len(&progs, &sup, if quick { 3 } else { 4 }, if quick { 8 } else { 9 });
+                        all_seqs(3, len, &mut |s| emit(fmt_cfg(&progs, &sup, 'a', s.to_vec())));
+                    }
+                }
+            }
+        }
+        // ---- random: up to 4 x 3 x 3 x 3, three executors
+        let n = if quick { 40_000 } else { 1_500_000 };
+        for i in 0..n {
+            let nt = rng.range(2, 4) as usize;
+            let nk = rng.range(1, 3);
+            let maxd = rng.range(0, 3) as u32;
+            let mut sup = BTreeMap::new();
+            for k in 0..nk {
+                let r = *rng.pick(&[Res::Ok, Res::Ok, Res::Nf, Res::Pe]);
+                sup.insert(k, (rng.range(0, maxd as u64) as u32, r));
+            }
+            let progs: Vec<Vec<(u64, bool)>> = (0..nt)
+                .map(|_| {
+                    let l = rng.range(1, 3);
+                    (0..l).map(|_| (rng.below(nk), rng.chance(1, 4))).collect()
+                })
+                .collect();
+            let total = sched_len(&progs, &sup, 0, 1000);
+            let mode = match i % 16 {
+                0 => 'j',
+                1..=5 => 'w',
+                _ => 'a',
+            };
+            let sched: Vec<u64> = match mode {
+                'j' => vec![],
+                'w' => (0..rng.range(0, 2 * total as u64)).map(|_| rng.below(4)).collect(),
+                _ => {
+                    let len = rng.range(0, 3 * total as u64);
+                    // biased: sometimes hammer one task (spurious polls), sometimes uniform
+                    let hammer = rng.below(nt as u64);
+                    let bias = rng.below(3);
+                    (0..len)
+                        .map(|_| {
+                            if bias == 0 && rng.chance(1, 2) {
+                                hammer
+                            } else if rng.chance(1, 50) {
+                                nt as u64 // an id that is no task
+                            } else {
+                                rng.below(nt as u64)
+                            }
+                        })
+                        .collect()
+                }
+            };
+            emit(fmt_cfg(&progs, &sup, mode, sched));
+        }
+    }
+
+    fn exec(&self, case: &str) -> ImplResult {
+        let mut res = ImplResult::default();
+        let Some(c) = parse_case(case) else {
+            res.out = "bad-op".into();
+            return res;
+        };
+        let run = catch(|| if c.mode == 'j' { run_join_all(&c) } else { run_scheduled(&c) });
+        let r = match run {
+            Ok(r) => r,
+            Err(msg) => {
+                res.out = "PANIC".into();
+                res.oracle.push(("panic".into(), msg));
+                return res;
+            }
+        };
+        res.out = format!("{} {}", r.trace.join(";"), r.summary);
+        res.oracle = oracle(&c, &r);
+        let mut users: BTreeMap<u64, BTreeSet<usize>> = BTreeMap::new();
+        for (t, p) in c.progs.iter().enumerate() {
+            for (k, _) in p {
+                users.entry(*k).or_default().insert(t);
+            }
+        }
+        let shared_key = users.values().any(|u| u.len() >= 2);
+        let suspending = c.sup.values().any(|(d, _)| *d > 0);
+        res.nontrivial = shared_key && (r.blocked_polls > 0 || (c.mode == 'j' && suspending));
+        res.tags.push(format!("exec:{}", c.mode));
+        res.tags.push(format!("tasks:{}", c.progs.len()));
+        res.tags.push(format!("keys:{}", c.sup.len()));
+        res.tags.push(format!("max-suspensions:{}", c.sup.values().map(|(d, _)| *d).max().unwrap_or(0)));
+        res.tags.push(format!("blocked-polls:{}", r.blocked_polls.min(5)));
+        if shared_key {
+            res.tags.push("shared-key".into());
+        }
+        for (_, (_, rr)) in &c.sup {
+            res.tags.push(format!("outcome:{}", rr.s()));
+        }
+        if c.progs.iter().flatten().any(|(_, w)| *w) {
+            res.tags.push("api:walk_frame".into());
+        }
+        res.tags.push(if r.finished.iter().all(|f| *f) { "all-finished".into() } else { "unfinished".into() });
+        res
+    }
+
+    fn shrink(&self, case: &str, still_fails: &dyn Fn(&str) -> bool) -> String {
+        let Some(mut c) = parse_case(case) else { return case.to_string() };
+        let mut progress = true;
+        while progress {
+            progress = false;
+            // drop schedule entries
+            let mut i = 0;
+            while i < c.sched.len() {
+                let mut d = c.clone();
+                d.sched.remove(i);
+                if still_fails(&render(&d)) {
+                    c = d;
+                    progress = true;
+                } else {
+                    i += 1;
+                }
+            }
+            // drop lookups (keep at least one task)
+            for t in 0..c.progs.len() {
+                let mut i = 0;
+                while i < c.progs[t].len() {
+                    let mut d = c.clone();
+                    d.progs[t].remove(i);
+                    if still_fails(&render(&d)) {
+                        c = d;
+                        progress = true;
+                    } else {
+                        i += 1;
+                    }
+                }
+            }
+            // drop the last task when its program is empty and the schedule never names it
+            while c.progs.len() > 1 && c.progs.last().map(|p| p.is_empty()).unwrap_or(false) {
+                let mut d = c.clone();
+                d.progs.pop();
+                if still_fails(&render(&d)) {
+                    c = d;
+                    progress = true;
+                } else {
+                    break;
+                }
+            }
+            // smaller suspension counts, plain api
+            let keys: Vec<u64> = c.sup.keys().copied().collect();
+            for k in keys {
+                while c.sup[&k].0 > 0 {
+                    let mut d = c.clone();
+                    d.sup.get_mut(&k).unwrap().0 -= 1;
+                    if still_fails(&render(&d)) {
+                        c = d;
+                        progress = true;
+                    } else {
+                        break;
+                    }
+                }
+            }
+            for t in 0..c.progs.len() {
+                for i in 0..c.progs[t].len() {
+                    if c.progs[t][i].1 {
+                        let mut d = c.clone();
+                        d.progs[t][i].1 = false;
+                        if still_fails(&render(&d)) {
+                            c = d;
+                            progress = true;
+                        }
+                    }
+                }
+            }
+        }
+        // cosmetic: with an empty schedule task ids do not matter — drop empty programs; drop
+        // supplier entries no program mentions
+        if c.sched.is_empty() && c.progs.iter().any(|p| p.is_empty()) && c.progs.iter().any(|p| !p.is_empty()) {
+            let mut d = c.clone();
+            d.progs.retain(|p| !p.is_empty());
+            if still_fails(&render(&d)) {
+                c = d;
+            }
+        }
+        let used: BTreeSet<u64> = c.progs.iter().flatten().map(|(k, _)| *k).collect();
+        if used.len() < c.sup.len() && !used.is_empty() {
+            let mut d = c.clone();
+            d.sup.retain(|k, _| used.contains(k));
+            if still_fails(&render(&d)) {
+                c = d;
+            }
+        }
+        render(&c)
     }
 }
